@@ -370,6 +370,7 @@ PLANS = {
                 ["flow_t", "flow_treasury_t", "ibc_t", "gate_t", "own_t", "treasury_t"], W_Q, W_T,
                 wide={"quick": [(30, 60, 0), (30, 60, 1)], "thorough": [(400, 80, 0), (400, 80, 1)]}),
     "C17": plan(["flow_q"], ["flow_t"], [], [], [("chaos", 6, 60)], [("chaos", 60, 70)]),
+    "C18": plan(["ibc_q"], ["ibc_t"], [], [], [], [], scen=["C18"]),
     "C19": plan(["flow_q"], ["flow_t"], ["flow_q"], ["flow_t"], [("chaos", 8, 60)], [("chaos", 100, 70)]),
     "C15": plan(["flow_q", "flow_treasury_q"], ["flow_t", "flow_treasury_t"], ["flow_q", "flow_treasury_q"], ["flow_t", "flow_treasury_t"], W_Q, W_T),
 }
@@ -550,7 +551,26 @@ def hook_c17(binp, tier, seed, wd):
     return extra, viols
 
 
-HOOKS = {"C04": hook_c04, "C19": hook_c19, "C09": hook_c09, "C17": hook_c17}
+def hook_c18(binp, tier, seed, wd):
+    extra, viols = {}, []
+    mv = os.path.join(wd, "migvec.ndjson")
+    mwh(binp, ["migvec", seed, 4 if tier == "quick" else 40, mv])
+    n, fs, wall = small_trace_check("MigrateTrace", mv, wd)
+    kinds = {}
+    for ln in open(mv):
+        r = json.loads(ln)
+        k = f"{r['kind']}:{r.get('path', '')}:{'ok' if r['ok'] else 'refused'}"
+        kinds[k] = kinds.get(k, 0) + 1
+    extra["migrate_records"] = n
+    extra["migrate_records_by_kind"] = kinds
+    extra["migrate_findings"] = len(fs)
+    log(f"[migrate] {n} migrate calls (versions x names x paths on raw legacy stores) checked against Migration.tla in {wall:.1f}s: {len(fs)} findings")
+    if fs:
+        viols.append(("migvec", mv, fs[0]))
+    return extra, viols
+
+
+HOOKS = {"C04": hook_c04, "C19": hook_c19, "C09": hook_c09, "C17": hook_c17, "C18": hook_c18}
 
 
 def run_property(prop, tier, seed):
